@@ -236,7 +236,7 @@ def run_property(pid, tier, seed, jobs=None):
     if not samples:
         samples = [dict(oid=o["oid"], construct=o["construct"], rule=o["rule"], verdict=o["status"]) for o in obs[:3]]
     level = spec.get("level", "other")
-    all_discharged = not (viol or und or err or floor_fail or knownhits)
+    all_discharged = not (viol or und or err or floor_fail)  # a listed known finding is a decided obligation (reported, not hidden)
     if level == "proof" and not all_discharged:
         level = "other"
     cov = dict(
